@@ -15,8 +15,8 @@ SPEC = dict(
     level="translation_validation",
     coq_dirs=["lib", "gen/C16Tables.v", "gen/C40Tables.v", "C01", "C16", "C40"],
     technique="byte-level differential between the program's and the SDK's view of the SAME account bytes (random bytes, structured markets from the real Market::init + mutated fields): every flag, config key, pool (raw and through the gmsol_model traits), every parameter accessor, clocks, balances, meta; per-byte observable map of the whole Market account on both sides (layout/offsets); size_of of 22 zero-copy types; the Pool trait operations of the two Pool types; Store::order_fee_discount_factor on both sides; the gmsol_model actions swap / update_funding / distribute_position_impact / deposit / withdraw / increase / decrease executed on the program's RevertibleMarket / RevertibleLiquidityMarket / RevertiblePosition and on the SDK's MarketModel / PositionModel from the same state with an aligned clock, comparing report and full resulting state + Coq theorems over Gallina tables REGENERATED from both sources (pool / clock / config arms, flag orders, helper rows, constants, trait method bodies, parameter slots)",
-    text="sdk_tables_eq_program_tables and sdk_param_slots_eq_program over the regenerated tables of both sides; on the real code: identical observables for identical bytes, identical byte->observable maps, identical sizes, identical pool operations (except the known cancel finding), identical order-fee discount, identical action reports and resulting states.",
-    level_note="Translation validation: the two implementations are compared by behaviour on generated account bytes; the Coq theorems cover the hand-duplicated tables (finite, vm_compute over regenerated tables). Known finding class 1 SdkCancelAmountsAboveI128Max. Limits: update_borrowing cannot be compared — the SDK MarketModel does not implement BorrowingFeeMarketMut at all (reported, not a disagreement); virtual inventories are disabled on both sides; action states are plausible trading states built through the SDK struct fields (no long histories); the program side uses the uncommitted revertible views (hooks 6fe18ab, 2e8e959); SDK clock = wall clock, program clock stub set to the same second (retry on tick); debug-assert-only differences on invalid pools (pure with a short amount) are excluded.",
+    text="sdk_tables_eq_program_tables and sdk_param_slots_eq_program over the regenerated tables of both sides; on the real code: identical observables for identical bytes, identical byte->observable maps, identical sizes, identical pool operations (incl. checked_cancel_amounts on all pools: c40_cancel_agree), identical order-fee discount, identical action reports and resulting states.",
+    level_note="Translation validation: the two implementations are compared by behaviour on generated account bytes; the Coq theorems cover the hand-duplicated tables (finite, vm_compute over regenerated tables). Finding class 1 SdkCancelAmountsAboveI128Max is FIXED (the SDK Pool carries the program's checked_cancel_amounts override; a fixed entry suppresses nothing). Limits: update_borrowing cannot be compared — the SDK MarketModel does not implement BorrowingFeeMarketMut at all (reported, not a disagreement); virtual inventories are disabled on both sides; action states are plausible trading states built through the SDK struct fields (no long histories); the program side uses the uncommitted revertible views (hooks 6fe18ab, 2e8e959); SDK clock = wall clock, program clock stub set to the same second (retry on tick); debug-assert-only differences on invalid pools (pure with a short amount) are excluded.",
     design_ref="DESIGN.md section 6, C40",
     explanation="Cases: Size, Decode (all observables, program vs SDK), ByteMap (byte range -> observables on each side), PoolOp, Discount, Act (action report hash + resulting state on each side).",
     trusted_base=["translate/c16.py, translate/c40.py", "harness/src/g7mm.rs observable extraction (Debug flattening of parameter structs)", "hooks verif_hooks_g9::with_revertible_market, verif_hooks_g7::{with_revertible_liquidity_market, with_revertible_position}"],
